@@ -34,6 +34,16 @@ type CreatorPlan struct {
 	Tail     int  `json:"tail"`      // creations made after that
 	Hold     int  `json:"hold"`      // pause inside the block, between the two steps
 	Gap      int  `json:"gap"`       // pause between two blocks
+	// Unblock is documented "safe to call multiple times but only from a single goroutine".
+	// Unblocks = how often the creator calls it on each of its blocks (1..3; 0 reads as 1). The
+	// first call always follows the two steps at once (both stay inside the block). The second
+	// follows after the pause Again (early release + a later one); the third is the "deferred"
+	// one at the end of the step, after the pause Gap. With Late the last of these calls is
+	// made even later: inside the creator's NEXT block, right after that block was granted
+	// (an early release followed by a nested request before the deferred release runs).
+	Unblocks int  `json:"unblocks,omitempty"`
+	Again    int  `json:"again,omitempty"`
+	Late     bool `json:"late,omitempty"`
 }
 
 // PluginPlan is one plugin.
@@ -96,6 +106,11 @@ func genC08(t *rapid.T) C08Case {
 			Tail:     rapid.IntRange(0, maxTail).Draw(t, "tail"),
 			Hold:     genPause(maxPauseUs).Draw(t, "hold"),
 			Gap:      genPause(maxPauseUs).Draw(t, "gap"),
+			Unblocks: rapid.SampledFrom([]int{1, 1, 2, 2, 3}).Draw(t, "unblocks"),
+		}
+		if cp.Unblocks > 1 {
+			cp.Again = genPause(maxPauseUs).Draw(t, "again")
+			cp.Late = rapid.Bool().Draw(t, "late")
 		}
 		sum += cp.N
 		c.Creators = append(c.Creators, cp)
@@ -158,6 +173,11 @@ func normalize(c C08Case) C08Case {
 		cp.Tail = clamp(cp.Tail, 0, 200)
 		cp.Hold = clamp(cp.Hold, -1, 5000)
 		cp.Gap = clamp(cp.Gap, -1, 5000)
+		cp.Unblocks = clamp(cp.Unblocks, 1, 3)
+		cp.Again = clamp(cp.Again, -1, 5000)
+		if cp.Unblocks == 1 {
+			cp.Again, cp.Late = 0, false
+		}
 		sum += cp.N
 		cs[i] = cp
 	}
@@ -325,13 +345,14 @@ type exec struct {
 	infra    []string
 	tearing  bool
 
-	plugs     []*plug // residents first
-	target    int64   // SyncFn returns (or failed Starts) that end the creators' waiting
-	finished  atomic.Int64
-	done      atomic.Int64 // creations completed (plan's clock for Start points)
-	progress  atomic.Int64
-	stopNoise atomic.Bool
-	crecs     [][]Creation
+	plugs         []*plug // residents first
+	target        int64   // SyncFn returns (or failed Starts) that end the creators' waiting
+	finished      atomic.Int64
+	done          atomic.Int64 // creations completed (plan's clock for Start points)
+	progress      atomic.Int64
+	stopNoise     atomic.Bool
+	extraUnblocks atomic.Int64 // Unblock calls beyond the first one of a block
+	crecs         [][]Creation
 }
 
 var cur atomic.Pointer[exec]
@@ -580,9 +601,12 @@ func (x *exec) add(c *api.Container) {
 	x.storeMu.Unlock()
 }
 
-// createOne performs one creation the way the property prescribes.
-func (x *exec) createOne(creator int, id string, addFirst bool, hold int) Creation {
-	rec := Creation{ID: id, Creator: creator}
+// createOne performs one creation the way the property prescribes. carry is an earlier
+// block of the same goroutine that has been unblocked already and is unblocked once more
+// inside this block (a no-op by the documented contract). It returns the block when the
+// plan wants it unblocked again after the step (atEnd) or inside the next block (late).
+func (x *exec) createOne(creator int, id string, cp CreatorPlan, carry *adaptation.PluginSyncBlock) (rec Creation, atEnd, late *adaptation.PluginSyncBlock) {
+	rec = Creation{ID: id, Creator: creator}
 	ctr := &api.Container{Id: id, PodSandboxId: x.pod.Id, Name: id}
 	rec.TReq = x.now()
 	b := x.r.A.BlockPluginSync()
@@ -590,6 +614,10 @@ func (x *exec) createOne(creator int, id string, addFirst bool, hold int) Creati
 	x.held.Add(1)
 	if n := x.inSync.Load(); n != 0 {
 		x.finding("sync-at-acquire", "BlockPluginSync returned (creation %s) while a plugin was being synchronized (SyncFn in progress)", id)
+	}
+	if carry != nil {
+		carry.Unblock() // released long ago: must not affect the block just granted
+		x.extraUnblocks.Add(1)
 	}
 	create := func() {
 		rec.TCall = x.now()
@@ -600,25 +628,42 @@ func (x *exec) createOne(creator int, id string, addFirst bool, hold int) Creati
 			x.infraf("CreateContainer(%s) failed: %v", id, err)
 		}
 	}
-	if addFirst {
+	if cp.AddFirst {
 		x.add(ctr)
 		rec.TAdd = x.now()
-		pause(hold)
+		pause(cp.Hold)
 		create()
 	} else {
 		create()
-		pause(hold)
+		pause(cp.Hold)
 		x.add(ctr)
 		rec.TAdd = x.now()
 	}
 	if n := x.inSync.Load(); n != 0 {
 		x.finding("sync-at-release", "a plugin was being synchronized (SyncFn in progress) while the sync block of creation %s was still held", id)
 	}
+	// The harness' count follows the first Unblock only: later calls on the same block
+	// release nothing.
 	x.held.Add(-1)
 	b.Unblock()
 	rec.TRel = x.now()
 	x.progress.Add(1)
-	return rec
+	switch {
+	case cp.Unblocks == 2 && cp.Late:
+		late = b
+	case cp.Unblocks >= 2:
+		pause(cp.Again)
+		b.Unblock()
+		x.extraUnblocks.Add(1)
+		if cp.Unblocks >= 3 {
+			if cp.Late {
+				late = b
+			} else {
+				atEnd = b
+			}
+		}
+	}
+	return rec, atEnd, late
 }
 
 func (x *exec) launchAt(n int64) {
@@ -632,22 +677,31 @@ func (x *exec) launchAt(n int64) {
 func (x *exec) creator(i int, cp CreatorPlan) {
 	t0 := time.Now()
 	k := 0
+	var carry *adaptation.PluginSyncBlock
 	one := func() {
-		rec := x.createOne(i, fmt.Sprintf("c%d-%d", i, k), cp.AddFirst, cp.Hold)
+		rec, atEnd, late := x.createOne(i, fmt.Sprintf("c%d-%d", i, k), cp, carry)
+		carry = late
 		x.crecs[i] = append(x.crecs[i], rec)
 		k++
 		x.launchAt(x.done.Add(1))
+		pause(cp.Gap)
+		if atEnd != nil {
+			atEnd.Unblock() // the "deferred" call at the end of the step
+			x.extraUnblocks.Add(1)
+		}
 	}
 	for {
 		if k >= cp.N && (x.finished.Load() >= x.target || k >= cp.N+extraCap || time.Since(t0) > extraWall) {
 			break
 		}
 		one()
-		pause(cp.Gap)
 	}
 	for t := 0; t < cp.Tail; t++ {
 		one()
-		pause(cp.Gap)
+	}
+	if carry != nil {
+		carry.Unblock()
+		x.extraUnblocks.Add(1)
 	}
 }
 
@@ -859,11 +913,12 @@ func execute(c C08Case, attempt int) result {
 
 	// --- a final creation, after every registration completed: active plugins must get it ---
 	if timeFail == "" && !stuck {
-		rec := x.createOne(-1, "final", true, -1)
+		rec, _, _ := x.createOne(-1, "final", CreatorPlan{AddFirst: true, Hold: -1, Unblocks: 1}, nil)
 		x.crecs = append(x.crecs, []Creation{rec})
 	}
 
 	// --- judge -----------------------------------------------------------------------------
+	ev.Get("C08").AddExtra("extra_unblock_calls", int(x.extraUnblocks.Load()))
 	x.mu.Lock()
 	infra := append([]string(nil), x.infra...)
 	regs := make([]Reg, len(x.regs))
@@ -1069,6 +1124,20 @@ func classesOf(c C08Case, regs []Reg, nRes, overlapped, totalOverlap int) []stri
 		cl = append(cl, "order:add-first")
 	default:
 		cl = append(cl, "order:create-first")
+	}
+	maxU, late := 1, false
+	for _, cp := range c.Creators {
+		if cp.Unblocks > maxU {
+			maxU = cp.Unblocks
+		}
+		late = late || (cp.Unblocks > 1 && cp.Late)
+	}
+	cl = append(cl, fmt.Sprintf("unblocks-max:%d", maxU))
+	if maxU > 1 && len(c.Creators) >= 2 && overlapped > 0 {
+		cl = append(cl, "multi-unblock,g>=2,overlap:1+")
+	}
+	if late && overlapped > 0 {
+		cl = append(cl, "late-unblock,overlap:1+")
 	}
 	if overlapped > 0 {
 		cl = append(cl, "overlap:1+")
